@@ -962,4 +962,46 @@ theorem setRefreshableAfter_refines (c : Cfg) (s : Spec.State) (t : Tbl) (k : Na
     simp only [hw', Bool.not_false, Bool.true_or, ↓reduceIte, Bool.false_and, Bool.false_eq_true]
     exact MapEq.of_eq hs.symm
 
+/-! ### statistics of a lookup (C20) -/
+
+theorem lookupIsHit_live (s : Spec.State) (t : Tbl) (k : Nat) (hs : s.m = absT t) :
+    lookupIsHit t k s.now = (s.live k).isSome := by
+  rw [live_abs s t k hs]
+  unfold lookupIsHit
+  cases lookup t k with
+  | none => rfl
+  | some n =>
+    have := visible_iff_live n s.now
+    simp only [Option.map_some, Option.filter]
+    cases hx : hasExpired n s.now <;> simp [hx] at this ⊢ <;> simp [this]
+
+/-- GetIfPresent counts exactly one lookup: a hit iff the code's test (found and not expired) holds -/
+theorem getIfPresent_stats (c : Cfg) (s : Spec.State) (t : Tbl) (k : Nat) (hs : s.m = absT t) :
+    (Spec.getIfPresent c s k).1.stats.hits = s.stats.hits + (if lookupIsHit t k s.now then 1 else 0) ∧
+    (Spec.getIfPresent c s k).1.stats.misses = s.stats.misses + (if lookupIsHit t k s.now then 0 else 1) := by
+  rw [lookupIsHit_live s t k hs]
+  unfold Spec.getIfPresent Spec.lookup
+  cases hl : s.live k with
+  | none => simp [Spec.miss]
+  | some e =>
+    simp only [Spec.touch, Spec.hit, ↓reduceIte, Option.isSome_some]
+    constructor <;> (split <;> rename_i heq <;> simp only [Prod.mk.injEq] at heq <;> obtain ⟨h1, _⟩ := heq <;> subst h1 <;> rfl)
+
+/-- Compute counts exactly one lookup, by the same test, unless its function panics or answers with an invalid op -/
+theorem compute_stats (c : Cfg) (s : Spec.State) (t : Tbl) (k : Nat) (onFound onAbsent : Spec.Act) (hs : s.m = absT t)
+    (hf : onFound ≠ .panic ∧ onFound ≠ .bad) (ha : onAbsent ≠ .panic ∧ onAbsent ≠ .bad) :
+    (Spec.compute c s k onFound onAbsent).1.stats.hits = s.stats.hits + (if lookupIsHit t k s.now then 1 else 0) ∧
+    (Spec.compute c s k onFound onAbsent).1.stats.misses = s.stats.misses + (if lookupIsHit t k s.now then 0 else 1) := by
+  rw [lookupIsHit_live s t k hs]
+  unfold Spec.compute
+  cases hl : s.live k with
+  | none =>
+    simp only [Option.isSome_none, Bool.false_eq_true, ↓reduceIte]
+    cases onAbsent <;> simp_all [Spec.computeStep, Spec.miss, Spec.write, Spec.remove, Spec.State.clearInflight, Spec.State.live, Spec.State.phys] <;>
+      (repeat' split) <;> simp_all
+  | some e =>
+    simp only [Option.isSome_some, ↓reduceIte]
+    cases onFound <;> simp_all [Spec.computeStep, Spec.hit, Spec.write, Spec.remove, Spec.State.clearInflight, Spec.State.live, Spec.State.phys] <;>
+      (repeat' split) <;> simp_all
+
 end OtterVerif.Proofs.TableRefine
